@@ -31,6 +31,7 @@ RULE = ('Exhaustive enumeration, no sampling: (a) every route of the API x '
 P1 = gen.PROV[0]
 P2 = gen.PROV[1]
 P3 = gen.PROV[2]
+P4 = gen.PROV[3]
 C1 = gen.CONS[0]
 C2 = gen.CONS[1]
 C3 = gen.CONS[2]
@@ -73,6 +74,10 @@ def build_fixture(svc):
                          'project_id': 'proj-a', 'user_id': 'user-a',
                          'consumer_generation': None,
                          'consumer_type': 'INSTANCE'}), 204)
+    # a second child of p1, so that a move inside one tree is possible
+    ok(svc.request('POST', '/resource_providers', version='1.39',
+                   body={'name': 'p4', 'uuid': P4,
+                         'parent_provider_uuid': P1}), 200)
     # a consumer written before consumer types existed (type NULL)
     ok(svc.request('POST', '/resource_providers', version='1.39',
                    body={'name': 'p3', 'uuid': P3}), 200)
@@ -496,6 +501,14 @@ FEATURES = [
         'GET', '/allocation_candidates?resources_A=VCPU:1&resources_B='
         'CUSTOM_PV_A:1&group_policy=none&same_subtree=_A,_B', None),
       st(200), base=33),
+    F('re-parenting inside one tree via PUT provider', 37,
+      lambda v: ('PUT', '/resource_providers/' + P4,
+                 {'name': 'p4', 'parent_provider_uuid': P2}), st(200),
+      base=14),
+    F('re-parenting into another tree via PUT provider', 37,
+      lambda v: ('PUT', '/resource_providers/' + P4,
+                 {'name': 'p4', 'parent_provider_uuid': P3}), st(200),
+      base=14),
     F('un-parenting via PUT provider', 37,
       lambda v: ('PUT', '/resource_providers/' + P2,
                  {'name': 'p2', 'parent_provider_uuid': None}), st(200),
@@ -533,6 +546,32 @@ FEATURES = [
                  % (SSD, AVX), None),
       lambda r: r.status == 200 and r.json['resource_providers'] == [],
       base=18),
+    F('string suffix on resourcesS', 33,
+      lambda v: ('GET', '/allocation_candidates?resources_A=VCPU:1', None),
+      st(200), base=25),
+    F('string suffix on requiredS', 33,
+      lambda v: ('GET', '/allocation_candidates?resources_A=VCPU:1'
+                 '&required_A=' + AVX, None), st(200), base=25),
+    F('string suffix on member_ofS', 33,
+      lambda v: ('GET', '/allocation_candidates?resources_A=VCPU:1'
+                 '&member_of_A=' + AGG, None), st(200), base=25),
+    F('string suffix on in_treeS', 33,
+      lambda v: ('GET', '/allocation_candidates?resources_A=VCPU:1'
+                 '&in_tree_A=' + P1, None), st(200), base=25),
+    # a suffixed filter whose group has no resources is refused at every
+    # version (unknown parameter below 1.33, orphaned group from 1.33)
+    F('string-suffixed in_tree without its group is never accepted', 40,
+      lambda v: ('GET', '/allocation_candidates?resources=VCPU:1'
+                 '&in_tree_A=' + P1, None), st(200), base=25),
+    F('string-suffixed required without its group is never accepted', 40,
+      lambda v: ('GET', '/allocation_candidates?resources=VCPU:1'
+                 '&required_A=' + AVX, None), st(200), base=25),
+    F('string-suffixed member_of without its group is never accepted', 40,
+      lambda v: ('GET', '/allocation_candidates?resources=VCPU:1'
+                 '&member_of_A=' + AGG, None), st(200), base=25),
+    F('numbered in_treeN', 31,
+      lambda v: ('GET', '/allocation_candidates?resources1=VCPU:1'
+                 '&in_tree1=' + P1, None), st(200), base=25),
     F('required=in: on candidates', 39,
       lambda v: cand(v, '&required=in:%s,%s' % (AVX, SSD)), st(200),
       base=17),
